@@ -228,9 +228,46 @@ func lastWins(p *Prog, fi *FuncInfo) (map[string]string, int) {
 				if _, skips := r.F.Reach(Query{From: bodyStart, Inclusive: true, Target: nextIter, Avoid: func(q Pt) bool { return q == at }, AvoidEdge: succ}); skips {
 					continue
 				}
+				// flags raised on every way round (`seen = true`): at the next iteration they are up
+				raised := map[types.Object]bool{}
+				inspectNoLit(l.body, func(y ast.Node) bool {
+					a2, ok := y.(*ast.AssignStmt)
+					if !ok || len(a2.Lhs) != len(a2.Rhs) {
+						return true
+					}
+					for k, lh2 := range a2.Lhs {
+						b, isB := objOf(info, lh2).(*types.Var)
+						if !isB || !isBoolType(b.Type()) || declared[b] {
+							continue
+						}
+						tv, has := info.Types[a2.Rhs[k]]
+						if !has || tv.Value == nil || tv.Value.String() != "true" {
+							raised[b] = false // assigned something else somewhere: not a monotone flag
+							continue
+						}
+						if _, seenBefore := raised[b]; seenBefore {
+							continue
+						}
+						bp, okB := r.F.PtOfNode(a2)
+						if !okB {
+							continue
+						}
+						if _, skips := r.F.Reach(Query{From: bodyStart, Inclusive: true, Target: nextIter, Avoid: func(q Pt) bool { return q == bp }, AvoidEdge: succ}); !skips {
+							raised[b] = true
+						}
+					}
+					return true
+				})
+				succ2 := r.F.World(func(atom ast.Expr) (bool, bool) {
+					if o := objOf(info, ast.Unparen(atom)); o != nil && raised[o] {
+						return true, true
+					}
+					return false, false
+				})
+				again := orEdge(succ, succ2)
 				// (1) the assignment runs again, inside this loop, after it succeeded, and the value was not read in between
 				readsV := func(q Pt) bool { return q != at && q.Node() != nil && readsObjReal(info, withoutLogCalls(info, q.Node()), v) }
-				if _, again := r.F.Reach(Query{From: []Pt{at}, Target: func(q Pt) bool { return q == at }, Avoid: func(q Pt) bool { return stop(q) || readsV(q) }, AvoidEdge: succ}); !again {
+				if _, runsAgain := r.F.Reach(Query{From: []Pt{at}, Target: func(q Pt) bool { return q == at }, Avoid: func(q Pt) bool { return stop(q) || readsV(q) }, AvoidEdge: again}); !runsAgain {
 					continue
 				}
 				// (2) read after the loop, reached by this definition
